@@ -26,7 +26,7 @@ import re
 
 import lib
 
-PREDICATES = ["NoPanic", "VarsJSONValid", "Extracted", "Forwarded", "TwinForwarded", "FormsAgree", "AbsentStaysAbsent", "NullStaysNull", "CompanionPreserved"]
+PREDICATES = ["NoPanic", "VarsJSONValid", "Extracted", "Forwarded", "TwinForwarded", "FormsAgree", "AbsentStaysAbsent", "NullStaysNull", "CompanionPreserved", "Reaches"]
 MODEL_PREDICATES = ["ModelCaseOK", "ModelTwinSame"]
 
 
@@ -141,6 +141,23 @@ def string_cases(sp, positions, with_default):
             out.append({"ty": ty, "expr": w(E("var", cp("v1"))), "vars": [var("v1", vty, "val", j=jl)], "tw": w(E("str", sp["tword"])),
                         "stratum": "str", "form": "json", "pos": pos})
     return out
+
+
+def rename_vars(e, ren):
+    if e["k"] == "var":
+        return dict(e, text=ren.get(tuple(e["text"]), e["text"]))
+    if e["items"]:
+        return dict(e, items=[rename_vars(x, ren) for x in e["items"]])
+    return e
+
+
+def nested_var_names(e, top=True, acc=None):
+    acc = acc if acc is not None else set()
+    if e["k"] == "var" and not top:
+        acc.add(txt(e["text"]))
+    for x in e["items"]:
+        nested_var_names(x, False, acc)
+    return acc
 
 
 def features(e, acc=None):
@@ -638,7 +655,14 @@ def generate(ctx, quick, rng, gen_stats):
         # context variation chosen by the seed: a second, independent variable $zz in the same request (none / omitted /
         # explicit null / value); Denotes(case) does not depend on it, the engine's undefined-variable tracking might
         comp = rng.choice(["none", "none", "absent", "null", "val"])
-        yield {"ty": v["ty"], "expr": v["expr"], "vars": v["vars"], "tw": v["tw"], "comp": comp, "stratum": "val", "form": "-", "pos": comp}
+        expr, vs = v["expr"], v["vars"]
+        if vs and rng.random() < 0.15:
+            # second context variation: the client names its variables a, b, c .. (the names the engine's own variable
+            # extraction / canonical renaming use) instead of v<i>; a consistent renaming does not change Denotes(case)
+            ren = {tuple(x["name"]): cp(chr(ord("a") + i)) for i, x in enumerate(vs[:26])}
+            expr = rename_vars(expr, ren)
+            vs = [dict(x, name=ren.get(tuple(x["name"]), x["name"])) for x in vs]
+        yield {"ty": v["ty"], "expr": expr, "vars": vs, "tw": v["tw"], "comp": comp, "stratum": "val", "form": "-", "pos": comp}
 
 
 def load_own_findings(ctx):
@@ -715,12 +739,19 @@ def process_batch(ctx, binary, cases, meta, T, rng, batch_no):
         if not failed:
             continue
         T.nfail += 1
-        key = finding_key(o, failed, v["expected"])
+        groups = []
+        if "Reaches" in failed and any(len(n) == 1 and n.islower() for n in nested_var_names(o["c"]["expr"])):
+            # two independent defects may meet in one case: the refusal is reported under its own key
+            groups.append(("Reaches:nested-variable-named-like-canonical", ["Reaches"]))
+            failed = [x for x in failed if x != "Reaches"]
+        if failed:
+            groups.append((finding_key(o, failed, v["expected"]), failed))
         size = (len(o["query"]) + len(o["qvars"]), o["query"])
-        ent = T.per_key.setdefault(key, [0, None])
-        ent[0] += 1
-        if ent[1] is None or size < ent[1][0]:
-            ent[1] = (size, o, v, failed)
+        for key, fl in groups:
+            ent = T.per_key.setdefault(key, [0, None])
+            ent[0] += 1
+            if ent[1] is None or size < ent[1][0]:
+                ent[1] = (size, o, v, fl)
     clean = [r for r in rows if r["id"] not in verdicts]
     T.clean_sample += clean if len(clean) <= 1500 else rng.sample(clean, 1500)
     if T.donor is None:
